@@ -131,7 +131,7 @@ class TlcResult:
         return self.rc == 0
 
     def violated_invariant(self):
-        m = re.search(r"Invariant (\S+) is violated", self.out)
+        m = re.search(r"Invariant (\S+) is violated", self.out) or re.search(r"Temporal property (\S+) was violated", self.out)
         return m.group(1) if m else None
 
 
